@@ -22,6 +22,7 @@ CONSTANTS
   OverflowWrapped = TRUE
   InstOffsetAll = TRUE
   OpenPrecheck = FALSE
+  EmbLexerClone = TRUE
 INVARIANT TypeOK
 INVARIANT ImplRefinesReq
 INVARIANT PositionFileOK
